@@ -56,6 +56,10 @@ def run(ctx):
         scen.append(("pcq", [str(c), "2,1", "1,2"]))
         scen.append(("pcq", [str(c), "1,1", "2"]))
     scen.append(("pcq", ["2", "2,2", "3,1"]))
+    # ProduceSwap (warc_parallel's readers): several producers
+    scen.append(("pcqs", ["2", "2,2", "4"]))
+    scen.append(("pcqs", ["3", "2,1,1", "2,2"]))
+    scen.append(("pcqs", ["1", "1,1", "2"]))
     scen.append(("usq", ["3"]))
     scen.append(("ring", ["-"]))
     scen.append(("ring", ["5"]))
@@ -69,7 +73,10 @@ def run(ctx):
                                                     "exhaustive": getattr(dfs, "exhausted", False)})
     # random schedules for the large scenarios
     big = [("usq", ["1030"]), ("ring", ["1,8191,8192,8193,20000,1,8192,8192,8192,5"]), ("ring", ["20000,20000,20000,20000"]), ("ring", ["8192,8192,8192,8192,8192,8192,8192"]),
-           ("pcq", ["3", "40,40", "30,50"])]
+           ("pcq", ["3", "40,40", "30,50"]), ("pcqs", ["4", "30,30,30", "45,45"]),
+           # numbers and single characters between writes: operator<< reserves room first and may hand a short block over
+           ("ring", ["8182,u20,32768,5"]), ("ring", ["8190,c,c,u1,8192,8192,8192,u20,8185,u10,8192,8192,8192,8192"]),
+           ("ring", [",".join(["700,u%d,c" % (1 + i % 20) for i in range(120)])])]
     for kind, args in big:
         # fixed policies first: always the last enabled thread (the consumer side stays caught up and runs inside every
         # post/continue window), strict alternation, always the first; then seeded random schedules
@@ -82,7 +89,7 @@ def run(ctx):
             jobs.append((kind, args, (ch, rc, trace, result, err)))
     ops = []
     for kind, args, (ch, rc, trace, result, err) in jobs:
-        ops.append(f"queue.accept {kind} {' '.join(args)} " + " ".join(t for t in trace if ":" in t))
+        ops.append(f"queue.accept {'pcq' if kind == 'pcqs' else kind} {' '.join(args)} " + " ".join(t for t in trace if ":" in t))
     verdicts = pvlib.run_lines(pvlib.PVDRIVER, ops, timeout=1200)
     ctx.cov["traces_validated_against_impl"] = len(ops)
     for (kind, args, (ch, rc, trace, result, err)), v in zip(jobs, verdicts):
@@ -102,7 +109,7 @@ def run(ctx):
             else:
                 pvlib.report_violation(ctx, f"corr:queue:{kind}", rp, no_input=True,
                                        summary=f"{kind} {' '.join(args)}: executed interleaving not accepted by the LTS: {v[:120]}")
-        elif kind == "pcq":
+        elif kind in ("pcq", "pcqs"):
             # delivered values must match what the LTS says each consumer got
             want = v.split(" got ", 1)[1].strip()
             got = result.replace("result ", "", 1).strip()
